@@ -24,7 +24,7 @@ Extraction "extracted.ml"
   Links.links_diff x_links_assemble_diff Links.page_links Links.sort_links Links.clean_href x_links_count_changes Links.rebalance
   Links.same_key Links.rough_eq Links.dlink Difflib.get_opcodes Difflib.insensitive_opcodes
   RenderMerge.htmldiff RenderMerge.prepare x_render_tokenize RenderMerge.token_opcodes RenderMerge.merge_changes RenderTokens.url_eq RenderTokens.rule_compare
-  RenderDoc.diffable_fragment RenderDoc.render_view RenderDoc.selected RenderDoc.kind_name RenderDoc.title_markup
+  RenderDoc.diffable_fragment RenderDoc.render_view RenderDoc.selected RenderDoc.kind_name RenderDoc.title_markup RenderDoc.doc_title
   LinksHtml.links_html LinksHtml.lex LinksHtml.clean LinksHtml.sem_events LinksHtml.events LinksHtml.links_document
   RenderMerge.merge_change_groups RenderMerge.reconcile_change_groups RenderMerge.assemble_diff RenderMerge.render_string
   RenderLabelled.nesting_report
